@@ -147,8 +147,13 @@ def main():
     if broken and not fails and hasattr(mod, "generate"):
         # violation search: widen the oracle-only exploration
         rng2 = C.Rng(seed + 77)
-        extra_cases = list(mod.generate(rng2, "thorough" if tier == "quick" else tier))
+        t_search = time.time()
+        budget_s = float(os.environ.get("VERIF_SEARCH_S", "120"))
+        gen_tier = "thorough" if (tier == "quick" and getattr(mod, "WIDEN_WITH_THOROUGH", True)) else tier
+        extra_cases = list(mod.generate(rng2, gen_tier))
         for case in extra_cases[:20000]:
+            if time.time() - t_search > budget_s:
+                break
             try:
                 obs = mod.run(case)
                 f = mod.oracle(case, obs)
